@@ -18,9 +18,17 @@ def models(ctx, th):
     jobs = [('MC_quick_c06.cfg', None), ('MC_quick_c06_bcast.cfg', None), ('MC_quick_c06_optout.cfg', None),
             ('MC_quick_c06_cut.cfg', None), ('MC_quick_c06_exp.cfg', None),
             # non-vacuity: flush invalidations skipped; an invalidation overtaking the reply before it
-            ('MC_neg_flush.cfg', 'NoStaleHit'), ('MC_neg_reorder.cfg', 'NoStaleHit')]
+            ('MC_neg_flush.cfg', 'NoStaleHit'), ('MC_neg_reorder.cfg', 'NoStaleHit'),
+            # round 2: several commands per key (a purge that stops at a pending entry leaves stale completed ones);
+            # Redis 6: invalidations embedded in array replies (consumed but not applied)
+            ('MC_quick_c06_cmds.cfg', None), ('MC_neg_purgestop.cfg', 'NoStaleHit'),
+            ('MC_quick_c06_r6.cfg', None), ('MC_neg_skipemb.cfg', 'NoStaleHit'),
+            # the store-level model of NewSimpleCacheAdapter (store family, spec/cache/Adapter.tla) without the re-check of the
+            # SimpleCache in the second critical section of Flight: a flight is registered over a value that can still be served
+            ('MCA_neg_norecheck.cfg', 'NoFlightOverFreshValue', 'cache', 'Adapter')]
     if th:
-        jobs += [('MC_thorough_c06.cfg', None), ('MC_thorough_cut.cfg', None), ('MC_neg_purge.cfg', 'NoLostWaiter')]
+        jobs += [('MC_thorough_c06.cfg', None), ('MC_thorough_cut.cfg', None), ('MC_neg_purge.cfg', 'NoLostWaiter'),
+                 ('MC_thorough_r6.cfg', None)]
     cc.model(ctx, jobs, workers=(6 if th else 2), par=(3 if th else 4), timeout=(3000 if th else 900))
 
 
@@ -28,10 +36,20 @@ def real(ctx, th):
     R = cc.Runner(ctx)
     try:
         n = 1500 if th else 200
-        with concurrent.futures.ThreadPoolExecutor(5) as ex:
+        with concurrent.futures.ThreadPoolExecutor(8) as ex:
             g = {m: ex.submit(cc.generate, ctx, 'Gen_%s.cfg' % m, 'gen-' + m, simulate=(n if m == 'optin' else n // 2))
                  for m in ('optin', 'bcast', 'optout', 'cut', 'expire')}
+            fp = ex.submit(cc.purge_cases, ctx)     # the scripted products of round 2
+            f6 = ex.submit(cc.r6_cases, ctx)
+            fa = ex.submit(cc.race_cases, ctx)
+            # thorough: simulated behaviours with three commands per key / on the Redis 6 server (few per thousand
+            # show the flagged situation, which is why the quick tier relies on the products)
+            fc = ex.submit(cc.generate, ctx, 'Gen_cmds.cfg', 'gen-cmds', simulate=n) if th else None
+            fr = ex.submit(cc.generate, ctx, 'Gen_r6.cfg', 'gen-r6', simulate=n) if th else None
             gen = {m: [c for c in f.result() if cc.interesting(c)] for m, f in g.items()}
+            purge, r6, cmds3, r6sim = fp.result(), f6.result(), (fc.result() if fc else []), (fr.result() if fr else [])
+            race = fa.result()
+        TEN = '"g", "h", "i", "j", "k", "l", "m", "n", "o", "p"' 
         cap = (lambda cs, k: cs) if th else (lambda cs, k: cs[:k])
         mr = None if th else 12
         nofail = [c for c in gen['optin'] if not any(s.get('fail') for s in c['steps'])]
@@ -48,6 +66,18 @@ def real(ctx, th):
             (cap(gen['cut'], 30), 'gen-cut', dict(tmode='optin', store='adapter')),
             (cap(gen['expire'], 16), 'gen-expire', dict(tmode='optin', store='lru')),
             (cap(gen['expire'], 16), 'gen-expire', dict(tmode='optin', store='adapter')),
+            # an invalidation meets a key cached under 3 / 10 commands, some of them in flight (CachePurge.tla)
+            (purge, 'purge', dict(store='lru', cmds=TEN, maxf=20)),
+            (purge, 'purge', dict(store='adapter', cmds=TEN, maxf=20)),
+            # Redis 6: invalidations embedded in the EXEC reply (CacheR6.tla, cachedrv -mode redis6)
+            (r6, 'r6', dict(store='lru', redis6=True)),
+            (r6, 'r6', dict(store='adapter', redis6=True)),
+            # a call delayed between the look-up and the registration of its Flight (CacheRace.tla; the regression test of
+            # "fix: adapter.Flight must look at the SimpleCache again before it registers a flight")
+            (race, 'race', dict(store='lru')),
+            (race, 'race', dict(store='adapter')),
+            (cmds3, 'gen-cmds', dict(store='lru')),
+            (r6sim, 'gen-r6', dict(store='lru', redis6=True)),
         ]
         with concurrent.futures.ThreadPoolExecutor(4) as ex:
             list(ex.map(lambda p: R.scen(p[0], p[1], max_runs=mr, par=6, **p[2]), plan))
